@@ -29,18 +29,17 @@ CLAIMS = {
          "involution that only exchanges @ and @@ and touches no other field, so every other configuration is carried unchanged; ring closures and extend record directional bonds with mutually reversed kinds. "
          "Additionally: geometric oracle on the real round trip (signed permutation between original and re-read neighbour orders, hydrogen included) and S-graph correspondence over a stereo family (root / chain / ring-closing centre x arrival index 0-3 x +-H x both marks).",
          "Lean 4 proof of the local parity law (walker, builder and their composition, all kinds and positions) + geometric permutation-parity oracle", "4.3"),
- 'C04': ("PARTIAL. Theorems in Purr/Props/C04.lean: completeness on the writer's image — every protocol-conformant non-empty history (any nesting, dots in branches, any ring numbers and bond kinds, every atom kind with every "
-         "bracket-field combination) is spelled by the writer as a string the reader accepts (corollary of T-wr, C09); every accepted string has a conformant non-empty history whose normal-form text is accepted again and replays the same "
-         "events; the verdict is never a panic; token languages are characterised by C07. The verdict's independence of the follower is structural in the model (read returns the events) and is checked of the code by running every string "
-         "through four followers. The documented grammar is a formal object: Spec.classify (Purr/Spec/Automaton.lean), total (grammar_total). NOT a theorem yet: (read s).2 = ok iff Spec.classify s = ok for every string (non-canonical spellings); that equivalence, verdict and cursor, is decided on every run by field G (real reader against Spec.classify executed by the Lean driver) and against the harness's reference recogniser "
-         "(written from the grammar, periodic table transcribed independently) on bounded-exhaustive string sets and exhaustive token families — declared as correspondence support, not proof.",
-         "Lean 4 proof of completeness on canonical spellings and closure under normalisation (via T-wr) + differential comparison with an independent reference recogniser", "4.4"),
- 'C05': ("PARTIAL. Theorems in Purr/Props/C05.lean: the failing remainder reported by the reader is a suffix of the input for every string (by induction over the reader transducer using shape lemmas for every token reader), hence "
-         "Character(i) always has i < |s| and the input from i on is exactly where the reader stopped; EndOfLine is reported exactly when the reader stopped at the end of the input; the verdict is never a panic. About the documented grammar Spec.classify (a character-level automaton in Lean, Purr/Spec/Automaton.lean, written from the property text and independent token tables): grammar_cursor_first_offending — its Character(i) is exactly the first offending character: "
-         "the first i characters can be completed to a sentence (explicit completion of every reachable configuration) and the first i+1 cannot, whatever follows; grammar_eol_viable_incomplete — EndOfLine exactly for viable but incomplete inputs. "
-         "NOT a theorem yet: reader verdict and cursor = Spec.classify for every string; decided on every run by field G (the real reader against Spec.classify executed by the Lean driver on all strings up to a length bound, every token family and its one-character corruptions incl. multi-byte) "
-         "and by the harness's own reference recogniser with brute-force completion.",
-         "Lean 4 proof that reported cursors lie inside the input and that the Lean grammar automaton's cursor is the first offending character + differential comparison of the reader's verdict and cursor with that automaton", "4.5"),
+ 'C04': ("accepts_iff_grammar (Purr/Props/C04.lean; Lemmas/GrammarEqL.lean read_eq_classify, ~2000 lines): for EVERY string the reader accepts it IFF it is a sentence of the documented grammar Spec.classify — a deterministic character-level automaton with a parenthesis counter "
+         "(Purr/Spec/Automaton.lean), written from the property text and the OpenSMILES token tables with the element symbols taken from an independent periodic table, not from the reader: organic-subset atoms, *, bracket atoms with isotope < 1000, 118 elements / 8 aromatics / *, "
+         "configurations @ @@ TH1-2 AL1-2 SP1-3 TB1-20 OH1-30, hydrogen count, charge -15..+15, map < 1000; bonds, ring numbers 0-99, dots, parenthesised branches. Proof token by token (every token reader consumes exactly what the automaton runs through and fails where it has no move; "
+         "the reader's hand-typed symbol tables equal the periodic table by exhaustive kernel evaluation). Also: the verdict is a function of the string alone (followers cannot influence it; the correspondence runs four followers), completeness on the writer's image (T-wr), closure under rewrite. "
+         "Additionally the real reader's verdict is compared with Spec.classify executed by the Lean driver (field G) and with the harness's reference recogniser on every run.",
+         "Lean 4 proof that the reader model accepts exactly an independently written grammar automaton (for all strings) + differential correspondence of the real reader with model and automaton", "4.4"),
+ 'C05': ("character_is_first_offending / end_of_line_is_viable_incomplete (Purr/Props/C05.lean): for EVERY refused string, if the reader reports Character(i) then i is inside the string, the first i characters can be extended to a string the reader accepts, and NO string beginning with the first i+1 characters is accepted; "
+         "EndOfLine is reported exactly when the whole input can be extended to an accepted string but is not accepted itself. Proof: reader verdict and cursor = those of the documented grammar automaton for every string (read_eq_classify, Lemmas/GrammarEqL.lean), "
+         "and for the automaton the error position is the first character without a move while every reachable configuration has an explicit completion (Lemmas/AutomatonL.lean). Cursors count characters, so multi-byte characters shift nothing. "
+         "Additionally the real reader's verdict and cursor are compared with the automaton (field G) and with the harness's reference recogniser plus brute-force completion on every run.",
+         "Lean 4 proof that the reported cursor is the first character that cannot continue any accepted string (reader = grammar automaton; automaton configurations completable) + differential comparison of cursors", "4.5"),
  'C06': ("Theorems in Purr/Props/C06.lean: every expect/unreachable!/overflow site of the code is an explicit panic outcome of the model, and the theorems show them unreachable: "
          "reading any string never reaches a panic site of the token readers or of read (read_no_panic, by induction over the reader transducer); the string writer never panics on the events "
          "of the reader or of the traversal of any adjacency list (via C08); hydrogen queries cannot overflow (subvalence <= 6, hydrogens <= 9 for any degree). Termination of every model function is "
